@@ -7,9 +7,10 @@ EXPLANATION = ("PARTIAL. Decided: error protocol and memory safety of Bragg_angl
                "Crystal_F_H_StructureFactor_Partial (NULL crystal, atomic numbers outside the tables, invalid flags, no reflection => error "
                "instead of NaN); Bragg angle = asin(hc/E / 2d) and Q = E sin(rel theta_B)/hc as congruence lemmas; atomic factors = (FF(q), "
                "f'(E), -f''(E)) x Debye factor; the structure factor equals the explicit sum over atoms with the atomic factors the library "
-               "reports (bounded: 2 atoms; same element twice checks the per-element cache; all 12 valid flag combinations + invalid ones). "
+               "reports (bounded: 2 atoms; same element twice checks the per-element cache; all 12 valid flag combinations + invalid ones); "
+               "the d-spacing equals the triclinic reciprocal-metric expression and the cell volume its closed form (congruences over unknown sin/cos/sqrt/pow). "
                "NOT decided by this family (needs properties of sin/cos/asin/sqrt or real algebra): 2 d sin(theta) = hc/E, inversion and 1/n "
-               "scaling of d, agreement with the reciprocal-metric formula and of the stored with the recomputed volume, Friedel's law, "
+               "scaling of d (real algebra on that expression), stored = recomputed volume for the built-in crystals (data), Friedel's law, "
                "additivity in the flags, the (0,0,0) Debye reduction.")
 ASSUMPTIONS = ["bounded: crystals of 2 atoms (structure-factor lemma)", "A-libm: sin/cos/asin are unknown pure functions",
                "Atomic_Factors treats a factor that is exactly 0 as a failure (see known findings)"]
@@ -28,6 +29,9 @@ def groups(sc, tier):
                     remove_bodies=["Crystal_dSpacing"], harness_defines=["-DSTUB_DSPACING"], functions=["Bragg_angle"], **base))
     gs.append(Group("C13.K2.Q_scattering_amplitude", "K2", "lemma_Q_scattering_amplitude", extra=["harness/h_diffraction.c", "harness/libm_uf.c", stub0, common.STATE],
                     remove_bodies=["Bragg_angle"], harness_defines=["-DSTUB_BRAGG"], functions=["Q_scattering_amplitude"], **base))
+    for lem, fn in (("lemma_dSpacing", "Crystal_dSpacing"), ("lemma_UnitCellVolume", "Crystal_UnitCellVolume")):
+        gs.append(Group("C13.K2." + fn, "K2", lem, extra=["harness/h_diffraction.c", "harness/libm_uf.c", stub0, common.STATE],
+                        harness_defines=["-DLEMMA_GEOMETRY"], functions=[fn], **base))
     stub1, u1 = common.stubs(sc, ["FF_Rayl", "Fi", "Fii"], "diffr1")
     gs.append(Group("C13.K2.Atomic_Factors", "K2", "lemma_Atomic_Factors", extra=["harness/h_diffraction.c", "harness/libm_uf.c", stub1, common.STATE],
                     harness_defines=["-DLEMMA_ATOMIC_FACTORS"], functions=["Atomic_Factors"], stubs_used=u1, **base))
